@@ -46,10 +46,25 @@ class Spec:
                 self.meta = self._kv(text)
             elif kind == 'config':
                 self.configs[arg] = self._kv(text)
+            elif kind == 'config-range':
+                # "@@config-range closed_n%d VAR from to": one config per integer, defs get -DVAR=<k>
+                nm, var, lo, hi = arg.split()
+                base = self._kv(text)
+                for k in range(int(lo), int(hi) + 1):
+                    c = dict(base)
+                    c['defs'] = (base.get('defs', '') + ' -D%s=%d' % (var, k)).strip()
+                    if 'tier_from' in base and k >= int(base['tier_from']):
+                        pass
+                    self.configs[nm % k] = c
             elif kind == 'loop':
                 self.loops[arg] = text
             elif kind == 'canary':
                 self.canaries[arg] = self._kv(text)
+            elif kind == 'cut':
+                self.cuts = getattr(self, 'cuts', [])
+                d = self._kv(text)
+                d['name'] = arg
+                self.cuts.append(d)
             else:
                 self.sections[kind + (' ' + arg if arg else '')] = text
         self.name = self.meta.get('id') or os.path.basename(path).rsplit('.', 1)[0]
@@ -85,12 +100,9 @@ class Unit:
         self.spec = spec
         self.info = {}
 
-    def extract(self, mutate=None):
-        sp = self.spec
-        m = sp.meta
+    def _cut(self, m):
         path = os.path.join(REPO, m['file'])
-        raw = open(path).read()
-        src = X.strip_comments(raw)
+        src = X.strip_comments(open(path).read())
         kind = m.get('cut', 'function')
         occ = int(m.get('occurrence', '1'))
         if kind == 'function':
@@ -105,6 +117,12 @@ class Unit:
             text, s, e = X.cut_region(src, ftext, fs, m['begin'], m['end'])
         else:
             raise X.ExtractError('unknown cut kind ' + kind)
+        return src, text, s, e, kind
+
+    def extract(self, mutate=None):
+        sp = self.spec
+        m = sp.meta
+        src, text, s, e, kind = self._cut(m)
         self.info.update(file=m['file'], lines=[X.lineno(src, s), X.lineno(src, e)], sha=X.sha(text), cut=kind)
         extra = []
         for line in sp.sec('rules').split('\n'):
@@ -124,9 +142,20 @@ class Unit:
             ctext = rw.run(wrapped, cname=cname)
         else:
             ctext = rw.run(text, cname=cname)
-        for r in sp.lst('expect'):
-            if rw.hits.get(r, 0) == 0:
-                raise X.ExtractError('%s: expected rewrite rule %s did not fire' % (sp.name, r))
+        self.also = []
+        for c in getattr(sp, 'cuts', []):
+            cm = dict(c)
+            cm.setdefault('file', m['file'])
+            csrc, ctxt, cs, ce, ckind = self._cut(cm)
+            rw2 = X.Rewriter(scalars=sp.lst('scalars') or ['Index', 'IT_', 'DT_'], extra_rules=extra, drop=drop,
+                             members=sp.lst('members'), enums=sp.lst('enums'))
+            self.also.append(rw2.run(ctxt, cname=cm.get('cname')))
+            for k, v in rw2.hits.items():
+                rw.hits[k] = rw.hits.get(k, 0) + v
+            self.info.setdefault('also_cut', []).append({'name': c['name'], 'file': cm['file'], 'lines': [X.lineno(csrc, cs), X.lineno(csrc, ce)], 'sha': X.sha(ctxt)})
+        # rules the contract author saw firing; one that no longer fires is only recorded (the code may legitimately have
+        # lost the construct) - leftover C++ syntax makes goto-cc fail, which is reported as 'extraction broke' (exit 2)
+        self.info['rules_expected_not_fired'] = [r for r in sp.lst('expect') if rw.hits.get(r, 0) == 0]
         self.info['rules_fired'] = dict(rw.hits)
         self.info['rewrites'] = X.token_audit(text, ctext)[:60]
         self.info['dropped'] = drop
@@ -175,6 +204,9 @@ class Unit:
         for lib in sp.lst('uses'):
             parts.append('#include "%s.h"' % lib)
         parts.append(sp.sec('prelude'))
+        for t in getattr(self, 'also', []):
+            parts.append('/* ---- extracted helper ---- */')
+            parts.append(t)
         parts.append('/* ---- extracted from %s:%d-%d ---- */' % (sp.meta['file'], self.info['lines'][0], self.info['lines'][1]))
         parts.append(body)
         parts.append('/* ---- harness ---- */')
